@@ -369,6 +369,9 @@ func (g *gen) pred(depth int) string {
 	switch k {
 	case 0, 1, 2:
 		ci := g.anyCol()
+		if r.Chance(1, 9) { // comparison with NULL: UNKNOWN
+			return g.mixCase(g.s.Cols[ci].Name) + " " + cmpOps[r.Intn(len(cmpOps))] + " " + g.emitNull()
+		}
 		return g.mixCase(g.s.Cols[ci].Name) + " " + cmpOps[r.Intn(len(cmpOps))] + " " + g.val(ci, false)
 	case 3:
 		ci := g.anyCol()
@@ -430,7 +433,7 @@ func (g *gen) pred(depth int) string {
 		if !ok {
 			ci = g.anyCol()
 		}
-		pats := []string{"a%", "%b", "%", "_", "a_c", "%b%", "abc", "", "_b%", `a\_c`, `\%`, "1%"}
+		pats := []string{"a%", "%b", "%", "_", "a_c", "%b%", "abc", "", "_b%", `a\_c`, `\%`, "1%", "a_", "__", "_%_", "_", "%_"}
 		not := ""
 		if r.Chance(1, 4) {
 			not = "NOT "
@@ -525,9 +528,28 @@ func (g *gen) limitClause(prob int, offset bool) string {
 	return " LIMIT " + g.emitInt(int64(g.r.Intn(4)))
 }
 
+// leaf3: a comparison that is often UNKNOWN
+func (g *gen) leaf3() string {
+	ci := g.anyCol()
+	name := g.s.Cols[ci].Name
+	switch g.r.Intn(4) {
+	case 0:
+		return name + " = " + g.emitNull()
+	case 1:
+		return name + " IS NULL"
+	}
+	return name + " " + cmpOps[g.r.Intn(len(cmpOps))] + " " + g.val(ci, false)
+}
+
 func (g *gen) selectStmt() string {
 	r := g.r
 	var fields string
+	if r.Chance(1, 10) { // the truth tables, cell by cell (literals: the operands are repeated)
+		g.lit = true
+		a, b := g.leaf3(), g.leaf3()
+		g.lit = false
+		return "SELECT " + g.s.Cols[g.s.PK[0]].Name + ", (" + a + ") AND (" + b + "), (" + a + ") OR (" + b + "), NOT (" + a + "), (" + a + ") XOR (" + b + "), NOT ((" + a + ") AND (" + b + ")) FROM " + g.s.Table + g.where(30)
+	}
 	switch k := r.Intn(10); {
 	case k < 5:
 		fields = "*"
@@ -538,7 +560,7 @@ func (g *gen) selectStmt() string {
 			fs[i] = g.mixCase(g.s.Cols[g.anyCol()].Name)
 		}
 		fields = strings.Join(fs, ", ")
-	case k < 9:
+	case k < 9 || (k == 9 && r.Chance(1, 2)):
 		ci := g.anyCol()
 		fields = g.s.Cols[g.s.PK[0]].Name + ", " + g.pred(1) + " AS p, " + g.val(ci, false)
 		if ii, ok := g.colOfKind(true); ok {
@@ -571,7 +593,7 @@ func (g *gen) keyValue(ci int, fresh bool) string {
 func (g *gen) storeValue(ci int) string {
 	c := g.s.Cols[ci]
 	switch k := g.r.Intn(12); {
-	case k == 0 && !c.NotNull:
+	case k < 2 && !c.NotNull:
 		return g.emitNull()
 	case k == 1 && (c.HasDef || !c.NotNull):
 		return "DEFAULT"
@@ -696,6 +718,13 @@ func (g *gen) setList() string {
 	r := g.r
 	n := 1 + r.Intn(2)
 	var sets []string
+	if r.Chance(1, 7) { // a later assignment reads an earlier one
+		a, ok1 := g.colOfKind(true)
+		b, ok2 := g.colOfKind(true)
+		if ok1 && ok2 && a != b && !g.s.Cols[a].PK && !g.s.Cols[b].PK {
+			return g.s.Cols[a].Name + " = " + g.s.Cols[a].Name + " + 1, " + g.s.Cols[b].Name + " = " + g.s.Cols[a].Name
+		}
+	}
 	for i := 0; i < n; i++ {
 		ci := g.anyCol()
 		c := g.s.Cols[ci]
